@@ -2,13 +2,30 @@
 (***************************************************************************)
 (* C20: key containers (PrivateKey: heap Vec; PayloadKey: inline array,    *)
 (* boxed by the harness so that it is a heap block).  A program is a       *)
-(* sequence of Construct / Clone / Drop steps over a few slots.            *)
+(* sequence of Construct / Clone / Drop steps over a few slots, and        *)
+(* Drop2: two handles dropped by two threads at the same time.             *)
+(*                                                                         *)
+(* Storage is a set of blocks with a holder count, so that both ways of    *)
+(* implementing Clone are covered by the same contract: a block of its own *)
+(* per clone (the code as it is), or one block shared by all clones and    *)
+(* released by the last holder.                                            *)
 (*   ErasedAtRelease  every block was all-zero at the moment its memory    *)
 (*                    was released                                         *)
 (*   LiveUntouched    a drop never changes another live object             *)
-(* Deviations: NoDropErase (no zeroisation in Drop), EraseCopy (a          *)
-(* temporary copy is zeroised instead), SharedClone (clones share storage, *)
-(* so dropping one wipes the other).                                       *)
+(* Variants:                                                               *)
+(*   none             every clone has its own block; Drop wipes, releases  *)
+(*   SharedLastWipes  clones share a block; the holder count is            *)
+(*                    decremented and tested in ONE atomic step, the last  *)
+(*                    holder wipes and releases          (conforming)      *)
+(* Deviations (each must break an invariant):                              *)
+(*   NoDropErase      no zeroisation in Drop                               *)
+(*   EraseCopy        a temporary copy is zeroised instead                 *)
+(*   SharedClone      clones share storage and EVERY drop wipes it         *)
+(*   SharedRacy       clones share storage; a dropping handle first looks  *)
+(*                    whether it is the only holder, then decrements, in   *)
+(*                    two steps: two concurrent drops can both see "not    *)
+(*                    the only one", neither wipes, the second decrement   *)
+(*                    releases the block with the secret in it             *)
 (***************************************************************************)
 EXTENDS Naturals, Sequences, FiniteSets, TLC, Json
 CONSTANTS MaxSteps, NSlots, Variant
@@ -16,48 +33,85 @@ CONSTANTS MaxSteps, NSlots, Variant
 Kinds == {"generate", "from_bytes", "payload_new"}
 Slots == 1..NSlots
 Empty == [live |-> FALSE, kind |-> "none", secret |-> 0, block |-> 0]
+Shares == Variant \in {"SharedClone", "SharedLastWipes", "SharedRacy"}
 
 VARIABLES slot,      \* slot -> object
           prog,      \* the program so far
           released,  \* set of [block, zero] observed at release
-          blocks,    \* block id -> current content ("secret" s | "zero")
-          nextBlock, nextSecret
-vars == <<slot, prog, released, blocks, nextBlock, nextSecret>>
+          blocks,    \* block id -> [content ("secret" s | 0 = wiped), holders]
+          nextBlock, nextSecret,
+          pend       \* threads of a concurrent drop in progress: set of [slot, saw]   saw: "none" | "unique" | "shared"
+vars == <<slot, prog, released, blocks, nextBlock, nextSecret, pend>>
 
 Init == /\ slot = [i \in Slots |-> Empty] /\ prog = <<>> /\ released = {} /\ blocks = <<>> /\ nextBlock = 1 /\ nextSecret = 1
+        /\ pend = {}
+
+Idle == pend = {}
 
 Construct(i, k) ==
-  /\ ~slot[i].live /\ Len(prog) < MaxSteps
+  /\ Idle /\ ~slot[i].live /\ Len(prog) < MaxSteps
   /\ slot' = [slot EXCEPT ![i] = [live |-> TRUE, kind |-> k, secret |-> nextSecret, block |-> nextBlock]]
-  /\ blocks' = Append(blocks, nextSecret)
+  /\ blocks' = Append(blocks, [content |-> nextSecret, holders |-> 1])
   /\ nextBlock' = nextBlock + 1 /\ nextSecret' = nextSecret + 1
   /\ prog' = Append(prog, [op |-> "construct", slot |-> i, kind |-> k, src |-> 0])
-  /\ UNCHANGED released
+  /\ UNCHANGED <<released, pend>>
 Clone(i, j) ==
-  /\ slot[i].live /\ ~slot[j].live /\ i # j /\ Len(prog) < MaxSteps
-  /\ IF Variant = "SharedClone"
-     THEN /\ slot' = [slot EXCEPT ![j] = slot[i]] /\ UNCHANGED <<blocks, nextBlock>>
+  /\ Idle /\ slot[i].live /\ ~slot[j].live /\ i # j /\ Len(prog) < MaxSteps
+  /\ IF Shares
+     THEN /\ slot' = [slot EXCEPT ![j] = slot[i]]
+          /\ blocks' = [blocks EXCEPT ![slot[i].block].holders = @ + 1] /\ UNCHANGED nextBlock
      ELSE /\ slot' = [slot EXCEPT ![j] = [slot[i] EXCEPT !.block = nextBlock]]
-          /\ blocks' = Append(blocks, slot[i].secret) /\ nextBlock' = nextBlock + 1
+          /\ blocks' = Append(blocks, [content |-> slot[i].secret, holders |-> 1]) /\ nextBlock' = nextBlock + 1
   /\ prog' = Append(prog, [op |-> "clone", slot |-> j, kind |-> slot[i].kind, src |-> i])
-  /\ UNCHANGED <<released, nextSecret>>
+  /\ UNCHANGED <<released, nextSecret, pend>>
+
+\* what one atomic drop of the handle in slot i does to storage
+WipesOnDrop(b) ==
+  CASE Variant \in {"NoDropErase", "EraseCopy"} -> FALSE
+    [] Variant = "SharedClone" -> TRUE                       \* every drop wipes the shared block
+    [] OTHER -> blocks[b].holders = 1                        \* the last holder wipes
+AfterDrop(b, wipe) ==
+  LET c == IF wipe THEN 0 ELSE blocks[b].content IN
+  /\ blocks' = [blocks EXCEPT ![b] = [content |-> c, holders |-> blocks[b].holders - 1]]
+  /\ released' = IF blocks[b].holders = 1 THEN released \cup {[block |-> b, zero |-> (c = 0)]} ELSE released
+
 Drop(i) ==
-  /\ slot[i].live /\ Len(prog) < MaxSteps
-  /\ LET b == slot[i].block
-         zeroed == Variant \notin {"NoDropErase", "EraseCopy"}
-     IN /\ blocks' = IF zeroed THEN [blocks EXCEPT ![b] = 0] ELSE blocks
-        /\ released' = released \cup {[block |-> b, zero |-> zeroed]}
+  /\ Idle /\ slot[i].live /\ Len(prog) < MaxSteps
+  /\ AfterDrop(slot[i].block, WipesOnDrop(slot[i].block))
   /\ slot' = [slot EXCEPT ![i] = Empty]
   /\ prog' = Append(prog, [op |-> "drop", slot |-> i, kind |-> slot[i].kind, src |-> 0])
-  /\ UNCHANGED <<nextBlock, nextSecret>>
+  /\ UNCHANGED <<nextBlock, nextSecret, pend>>
+
+\* two threads start dropping two handles at the same moment
+Drop2(i, j) ==
+  /\ Idle /\ slot[i].live /\ slot[j].live /\ i < j /\ Len(prog) < MaxSteps
+  /\ pend' = {[slot |-> i, saw |-> "none"], [slot |-> j, saw |-> "none"]}
+  /\ prog' = Append(prog, [op |-> "drop2", slot |-> i, kind |-> slot[i].kind, src |-> j])
+  /\ UNCHANGED <<slot, released, blocks, nextBlock, nextSecret>>
+\* one step of one of the two threads
+ThreadStep(t) ==
+  /\ t \in pend
+  /\ LET b == slot[t.slot].block IN
+     IF Variant = "SharedRacy" /\ t.saw = "none"
+     THEN \* first half of the racy drop: look at the holder count
+          /\ pend' = (pend \ {t}) \cup {[t EXCEPT !.saw = IF blocks[b].holders = 1 THEN "unique" ELSE "shared"]}
+          /\ UNCHANGED <<slot, released, blocks>>
+     ELSE /\ AfterDrop(b, IF Variant = "SharedRacy" THEN t.saw = "unique" ELSE WipesOnDrop(b))
+          /\ slot' = [slot EXCEPT ![t.slot] = Empty]
+          /\ pend' = pend \ {t}
+  /\ UNCHANGED <<prog, nextBlock, nextSecret>>
 
 Next == \/ \E i \in Slots, k \in Kinds : Construct(i, k)
         \/ \E i, j \in Slots : Clone(i, j)
         \/ \E i \in Slots : Drop(i)
+        \/ \E i, j \in Slots : Drop2(i, j)
+        \/ \E t \in pend : ThreadStep(t)
 Spec == Init /\ [][Next]_vars
 
 ErasedAtRelease == \A r \in released : r.zero
-LiveUntouched == \A i \in Slots : slot[i].live => blocks[slot[i].block] = slot[i].secret
-Emit == Len(prog) = MaxSteps => PrintT(<<"REPLAY", ToJson([prog |-> prog])>>)
+LiveUntouched == \A i \in Slots : slot[i].live => blocks[slot[i].block].content = slot[i].secret
+\* storage bookkeeping: a block is held by exactly the live slots that point to it
+HoldersExact == Idle => \A b \in 1..Len(blocks) : blocks[b].holders = Cardinality({i \in Slots : slot[i].live /\ slot[i].block = b})
+Emit == (Len(prog) = MaxSteps /\ Idle) => PrintT(<<"REPLAY", ToJson([prog |-> prog])>>)
 \* hide nothing: programs are the state
 =============================================================================
